@@ -117,6 +117,9 @@ pub struct World {
     /// `u32::MAX` in chains whose top operation carries the prune flag (order and all verdicts of
     /// the spec are preserved: a prune-flagged operation needs no predecessor).
     pub top_max: Option<u32>,
+    /// `Some(f)`: the GapLinked parameter `f` (the spec's MaxSeq + 2, "far jump") is realised as
+    /// seq_num u32::MAX
+    pub gap_far: Option<u32>,
 }
 
 impl World {
@@ -129,6 +132,7 @@ impl World {
             honest: BTreeMap::new(),
             by_hash: BTreeMap::new(),
             top_max: None,
+            gap_far: None,
         }
     }
 
@@ -142,8 +146,9 @@ impl World {
 
     /// concrete sequence number -> spec sequence number
     pub fn aseq(&self, c: u32) -> u32 {
-        match self.top_max {
-            Some(m) if c == u32::MAX => m,
+        match (self.top_max, self.gap_far) {
+            (Some(m), _) if c == u32::MAX => m,
+            (None, Some(f)) if c == u32::MAX => f,
             _ => c,
         }
     }
@@ -280,6 +285,15 @@ impl World {
                 let sk = self.key(param);
                 h.verifying_key = sk.verifying_key();
                 h.sign(&sk);
+            }
+            // signed by the log's own author: skips at least one sequence number after `base`, which it
+            // backlinks to; no prune flag
+            "GapLinked" => {
+                let x: u32 = param.parse().expect("gap seq param");
+                h.seq_num = if Some(x) == self.gap_far { u32::MAX } else { x };
+                h.backlink = Some(base.hash);
+                h.extensions.prune = false;
+                h.sign(&self.key(&author));
             }
             // the attacker's well-linked mirror of the victim's chain
             "ResignedLinked" => {
@@ -702,6 +716,7 @@ fn expected_store(step: &Value) -> BTreeSet<String> {
 }
 
 struct Expand {
+    gap_far: Option<u32>,
     concurrent: bool,
     top_max: Option<u32>,
     every: usize,
@@ -723,6 +738,7 @@ fn replay(args: &Args) {
     );
     let rt = tokio::runtime::Builder::new_current_thread().enable_all().build().expect("runtime");
     let mut expand = Expand {
+        gap_far: args.extra.get("gap_far").and_then(|v| v.parse().ok()),
         concurrent: args.extra.get("concurrent").map(|v| v == "1").unwrap_or(false),
         top_max: args.extra.get("top_max").and_then(|v| v.parse().ok()),
         every: args.extra_usize("expand_every", 0),
@@ -777,6 +793,7 @@ fn report(out: &mut Outcome, findings: Vec<Finding>, b: &Value, step: usize) {
 async fn replay_one(imp: &Impl, b: &Value, bi: usize, out: &mut Outcome, expand: &mut Expand) -> Result<(), String> {
     let mut world = World::new(format!("b{bi}"));
     world.top_max = expand.top_max;
+    world.gap_far = expand.gap_far;
     for p in b["world"].as_array().cloned().unwrap_or_default() {
         world.prune.insert((
             p[0].as_str().expect("a").to_string(),
@@ -1209,6 +1226,7 @@ fn log_scalars(rows: &BTreeSet<Row>, a: &str, l: &str) -> Value {
 const FORGE_CLASSES: &[&str] = &[
     "BadSig", "BadVersion", "PayloadInfoInconsistent", "BacklinkSeqInconsistent", "BodyMismatch",
     "ClaimOtherAuthor", "PruneFlipped", "SeqChanged", "BacklinkChanged", "ForgedPrune", "Resigned",
+    "GapLinked", "GapLinked",
 ];
 
 /// Seeded random multi-author histories: permutations, drops, duplicates, forged copies, several
@@ -1368,12 +1386,19 @@ async fn record_one(imp: &Impl, run: usize, seed: u64, trace: &mut TraceWriter, 
                     }
                     "PruneFlipped" => info.prune = !info.prune,
                     "BacklinkChanged" => info.bl = Some(format!("{a}|{l}|{s}|Elsewhere")),
+                    "GapLinked" => {
+                        let x = s + 2 + rng.below(4) as u32;
+                        param = x.to_string();
+                        info.seq = x;
+                        info.prune = false;
+                        info.bl = Some(base_info.key.clone());
+                    }
                     _ => {}
                 }
-                info.wf = cls == "Resigned";
+                info.wf = cls == "Resigned" || cls == "GapLinked";
                 forged_n += 1;
                 // a re-signed copy is deterministic (same key, same fields => same bytes and hash): one id
-                info.key = if cls == "Resigned" { format!("{a}|{l}|{s}|Resigned:{param}") } else { format!("{a}|{l}|{s}|{cls}:{forged_n}") };
+                info.key = if cls == "Resigned" || cls == "GapLinked" { format!("{a}|{l}|{s}|{cls}:{param}") } else { format!("{a}|{l}|{s}|{cls}:{forged_n}") };
                 let op = world.concretise(cls, &param, &base, rng.next_u64());
                 world.register(&op, info.clone());
                 (op, info, cls.to_string())
